@@ -25,6 +25,9 @@ type Program struct {
 	closureDecls map[*ast.FuncLit]*ast.FuncDecl
 	closureFuncs map[*ast.FuncLit]*types.Func
 	fieldInit   map[types.Object]types.Object
+	reachWriter map[*types.Func]bool
+	fresh       map[*types.Func]bool
+	callOnly    map[*ast.FuncLit]types.Object
 	globalInits map[*types.Var]ast.Expr
 	privAlloc   map[types.Object]bool
 	scanPosDone bool
